@@ -209,6 +209,38 @@ namespace hv
         };
         struct BProbe1G { static constexpr auto name = "ho_bprobe1_g"; static P compose(Wiring &w, Port<B2h> p) { return wire<NBProbe<1>>(w, p); } };
         struct BProbe2G { static constexpr auto name = "ho_bprobe2_g"; static P compose(Wiring &w, Port<B2h> p) { return wire<NBProbe<2>>(w, p); } };
+        // mesh_: instances that read each other through mesh_ref. An instance whose dependency is not settled yet pauses and is
+        // resumed in the same cycle - the only place where a child graph's node loop is entered twice in one cycle
+        struct NMeshProbe
+        {
+            static constexpr auto name = "ho_mesh_probe";
+            static void eval(In<"key", TS<Int>> key, In<"link", TS<Int>> link, DateTime now, Out<TS<Int>> out)
+            {
+                hlog("ev", "MeshProbe", now, key.value(), link.value());
+                out.set(link.value());
+            }
+        };
+        struct NMeshTail
+        {
+            static constexpr auto name = "ho_mesh_tail";
+            static void eval(In<"key", TS<Int>> key, In<"x", TS<Int>> x, DateTime now, Out<TS<Int>> out)
+            {
+                hlog("ev", "MeshTail", now, key.value(), x.value());
+                out.set(key.value() + x.value());
+            }
+        };
+        struct MeshChainG
+        {   // result[key] = key + result[link[key]]  (0 where the link names an instance that has no value)
+            static constexpr auto name = "ho_mesh_chain_g";
+            static P compose(Wiring &w, NamedPort<"key", TS<Int>> key, P link)
+            {
+                P probed = wire<NMeshProbe>(w, key, link);
+                P dep    = stdlib::mesh_ref<TS<Int>>(w, probed);
+                P zero   = wire<stdlib::const_, TS<Int>>(w, Int{0});
+                P base   = wire<stdlib::default_>(w, dep, zero).template as<TS<Int>>();
+                return wire<NMeshTail>(w, key, base);
+            }
+        };
         struct TickAfterG { static constexpr auto name = "ho_tick_after_g"; static P compose(Wiring &w, P ts) { return wire<NTickAfter>(w, ts); } };
         struct FailOnG { static constexpr auto name = "ho_fail_on_g"; static P compose(Wiring &w, P ts) { return wire<NFailOn>(w, ts); } };
         struct PulseFailG { static constexpr auto name = "ho_pulse_fail_g"; static P compose(Wiring &w, P ts) { return wire<NFailOn>(w, wire<NPulse>(w, ts)); } };
@@ -392,6 +424,13 @@ namespace hv
                         const size_t idx = static_cast<size_t>(st.geti("idx", 0));
                         if (ps.shape.at(src_id) == "TSLB") { Port<TSL<B2h, 2>> l{w, ps.ref.at(src_id)}; ps.ref[id] = tsl_element(l, idx).erased(); ps.shape[id] = "TSB"; }
                         else { Port<TSL<TSS<Int>, 2>> l{w, ps.ref.at(src_id)}; ps.ref[id] = tsl_element(l, idx).erased(); ps.shape[id] = "TSS"; }
+                    }
+                    else if (k == "mesh")
+                    {   // mesh <id> d=<TSD writer>: mesh_(MeshChainG, link)
+                        long long id = std::stoll(st.tok.at(1));
+                        Port<void> out = wire<stdlib::mesh_>(w, fn<MeshChainG>(), Port<D>{w, src(st, "d")});
+                        ps.ref[id]   = out.as<D>().erased();
+                        ps.shape[id] = "TSD";
                     }
                     else if (k == "chain")
                     {   // chain <id> src=<id> n=<k>: k AddOne nodes in a row over a TS<Int> producer (a producer of some depth)
